@@ -61,7 +61,14 @@ def main():
             for p in todo:
                 t0 = time.time()
                 env = dict(os.environ, VERIF_REPO=wt, VERIF_SEED=os.environ.get("VERIF_SEED", "0"))
-                rr = sh(["/venv/bin/python", "tools/check.py", p, "--tier", tier], cwd=VERIF, env=env, timeout=3600)
+                # the evidence file describes runs on /repo: keep the one that is there (a run on a mutated tree must not replace it)
+                evf = VERIF / "evidence" / f"{p}.json"
+                saved = evf.read_bytes() if evf.exists() else None
+                try:
+                    rr = sh(["/venv/bin/python", "tools/check.py", p, "--tier", tier], cwd=VERIF, env=env, timeout=3600)
+                finally:
+                    if saved is not None:
+                        evf.write_bytes(saved)
                 viol = [l for l in rr.stdout.split("\n") if l.startswith("VIOLATION")]
                 res[p] = {"rc": rr.returncode, "violation_lines": viol[:3], "wall_s": round(time.time() - t0, 1),
                           "summary": [l for l in rr.stdout.split("\n") if l.startswith("[" + p + "]")][-1:]}
